@@ -14,6 +14,10 @@ def run(ctx):
             ("par", 40 if quick else 400, 300, 21, []),
             ("parperm", 1 if quick else 6, 12, 22, [])]
     r = codec.run_art("C04", ctx, runs)
-    violations, known = codec.verdict("C04", r)
+    def search():
+        # other seeds, three times as many cases
+        ctx2 = dict(ctx); ctx2["seed"] = ctx["seed"] + 7919
+        return codec.run_art("C04", ctx2, [(m, c * 3, n, so, ex) + tuple(rest) for (m, c, n, so, ex, *rest) in runs if m not in ("data",)])
+    violations, known = codec.verdict("C04", r, search=search)
     r.update({"violations": violations, "known": known})
     return r
